@@ -16,7 +16,7 @@ RULE = ('Hypothesis draws (packet type 0..6, payload, history of 1..6 encode(b64
         'nested dict/list. Plus an exhaustive catalogue product (7 types x catalogue x all flag '
         'sequences up to length 3/4). Oracle: independent v4 reference encoder/decoder. '
         'Non-trivial: non-empty payload and (binary | container | look-alike text | history '
-        'mixing both channel kinds). Distinct: hash of (type, payload, flags).')
+        'mixing both channel kinds). Distinct: hash of (type, payload, flags). A coverage-guided atheris campaign (fuzz/atheris_codec.py) runs the same check on fuzzer-built cases; its executions are counted, its non-trivial cases are counted but not de-duplicated.')
 ASSUMPTIONS = ['stdlib json and base64 are correct (used by the reference model)',
                'ints inside containers are below 10^100 (documented parse guard) - longer ones '
                'are generated but only totality is required']
@@ -264,6 +264,13 @@ def run_shard(ctx):
     run_given(ctx, case_st, body, max_examples=3000 if quick else 60000)
     run_given(ctx, st.binary(max_size=64), lambda raw: check_decode_binary_inputs(raw, ctx),
               max_examples=300 if quick else 5000)
+    # coverage-guided campaign (atheris) with the same oracles: every shard its own seed in
+    # the thorough tier, one short campaign in the quick tier
+    from vk import athfuzz
+    if not quick:
+        athfuzz.campaign(ctx, ID, 150000)
+    elif ctx.shard == 0:
+        athfuzz.campaign(ctx, ID, 6000)
 
 
 def replay(case, ctx):
